@@ -17,6 +17,7 @@ pub mod c13;
 pub mod c14;
 pub mod c15;
 pub mod c16;
+pub mod c17;
 
 pub fn run(prop: &str, opts: &Opts) -> bool {
     match prop {
@@ -38,6 +39,7 @@ pub fn run(prop: &str, opts: &Opts) -> bool {
         "c15" => c15::run(opts),
         "c16" => c16::run(opts),
         "c16check" => c16::check_logs(opts),
+        "c17" => c17::run(opts),
         _ => return false,
     }
     true
